@@ -282,6 +282,12 @@ Section Cfg.
   Definition tk (e : E) (m : mgr) : E := match m with Some _ => set_trk e false | None => e end.
   Definition note_cancel_m (e : E) (m : mgr) (r : request) : E := match m with Some _ => e | None => note_cancel e r end.
 
+  (* cancelling a UOD request that has not started an instance: the request is done (it will never start one);
+     mark_cancelled afterwards may raise, which is logged and swallowed *)
+  Definition cancel_unstarted (e : E) (m : mgr) (r : request) : E * mgr :=
+    let '(e1, m1) := mark_done e m r in
+    if mark_cancelled_raises (tk e1 m1) r then (e1, m1) else (note_cancel_m e1 m1 r, m1).
+
   (* _cancel_command(req, finalize=True); exceptions inside are logged and swallowed: when mark_cancelled raises the
      command has been cancel()led but is neither finalized nor is the request marked as done *)
   Definition cancel_request (e : E) (m : mgr) (r : request) : E * mgr :=
@@ -304,8 +310,10 @@ Section Cfg.
               else mark_done (fin_i (note_cancel_m e1 m r) n) m r
         end
     | CU n =>
-        match find_u e n with
-        | None => (e, m)
+        match (match find_u e n with
+               | Some c => if Nat.eqb (c_id c) (r_id r) then Some c else None     (* an instance of another request is not ours *)
+               | None => None end) with
+        | None => cancel_unstarted e m r
         | Some c =>
             if c_complete c then mark_done (fin_u e c) m r
             else
